@@ -1,7 +1,10 @@
 package store
 
 import (
+	"bytes"
+
 	"github.com/ipld/go-storethehash/internal/vrt"
+	"github.com/ipld/go-storethehash/store/types"
 )
 
 // Verif_H12Wake: C12 — a writer made to wait by the rate limiter is released by a
@@ -57,4 +60,67 @@ func Verif_H12Wake() {
 	vrt.SchedEnd()
 	vrt.Assert(s.Close() == nil, "close-no-error")
 	vrt.Cover("h12-end")
+}
+
+var optionalCoverH12 = []string{"h12s-no-wait"}
+
+// Verif_H12Seq: C12, first clause — a writer that was made to wait "is released by a flush
+// that completes after the wait began". Sequential and deterministic: the writer's
+// back-pressure step runs until it blocks, then one explicit Flush starts and completes,
+// and the writer must have been released by it — for every burst allowance (symbolic) and
+// both outcomes of the rate comparison, with several unflushed Puts in one bucket (the
+// backlog the writer measures and the work the flush reports differ).
+func Verif_H12Seq() {
+	dir := vrt.TempDir()
+	c := vcfg{bits: 8, ifs: 1 << 30, pfs: 1 << 30, primary: MultihashPrimary}
+	s, err := openCfg(dir, c)
+	vrt.Assert(err == nil, "open-no-error")
+	if err != nil {
+		return
+	}
+	n := vrt.Param("puts", 2)
+	var keys [][]byte
+	for i := 0; i < n; i++ {
+		d := vrt.Bytes("digest", 4)
+		vrt.Assume(d[0] == 0x5A)
+		k := append([]byte{0x00, 4}, d...)
+		for _, o := range keys {
+			vrt.Assume(!bytes.Equal(o, k))
+		}
+		keys = append(keys, k)
+		vrt.Assert(s.Put(k, vrt.Bytes("val", 1)) == nil, "put-no-error")
+	}
+	s.flushRate = 1
+	burst := vrt.U32("burst")
+	vrt.Assume(burst <= 1<<20)
+	s.burstRate = types.Work(burst)
+	done := make(chan struct{})
+	go func() {
+		s.flushTick() // the writer's back-pressure step of Put/Remove
+		close(done)
+	}()
+	released := func() bool {
+		select {
+		case <-done:
+			return true
+		default:
+			return false
+		}
+	}
+	vrt.Quiesce()
+	if released() {
+		vrt.Cover(optionalCoverH12[0]) // backlog within the burst allowance, or inbound rate below the flush rate
+	} else {
+		// the writer waits; this flush starts and completes after the wait began
+		vrt.Assert(s.Flush() == nil, "flush-no-error")
+		vrt.Quiesce()
+		ok := released()
+		vrt.Assert(ok, "writer-released-by-the-flush-that-completed-after-its-wait-began")
+		if !ok {
+			return
+		}
+		vrt.Cover("h12s-waited")
+	}
+	vrt.Assert(s.Close() == nil, "close-no-error")
+	vrt.Cover("h12s-end")
 }
